@@ -162,6 +162,12 @@ class Scheduler:
         calls = sorted(m for m in templates if m in surf["methods"])
         if calls and (want_call or r.random() < self.kn["call_rate"]):
             m = r.choice(calls)
+            if m == "apply_transforms" and r.random() < 0.3:
+                # the same Dimension asked twice in a row, with dicts that are == but differ
+                a, b, prop = r.choice(self.EQUAL_BUT_DIFFERENT)
+                self.__dict__.setdefault("pending", []).append(
+                    ["READ", cid, hv.hid, path + [{"call": m, "args": [{"lit": b}]}, prop]])
+                return ["READ", cid, hv.hid, path + [{"call": m, "args": [{"lit": a}]}, prop]]
             return ["READ", cid, hv.hid, path + [{"call": m, "args": self._call_args(templates[m], hv)}]]
         if cls in ("cube.Cube",) + PARTITION_CLASSES[:2] and r.random() < 0.02:
             return ["READ", cid, hv.hid, path + [{"repr": 1}]]
@@ -323,9 +329,20 @@ class Scheduler:
             return ["READX", op[1], op[2], op[3], self._ambient()]
         return op
 
+    EQUAL_BUT_DIFFERENT = [  # dicts that compare == and do not mean the same to the library
+        ('{"prune":true}', '{"prune":1}', "prune"),
+        ('{"prune":1}', '{"prune":true}', "prune"),
+        ('{"elements":{"1":{"hide":true}}}', '{"elements":{"1":{"hide":1}}}', "hidden_idxs"),
+        ('{"elements":{"1":{"hide":1}}}', '{"elements":{"1":{"hide":true}}}', "hidden_idxs"),
+    ]
+
     def _next_op(self):
         r = self.rnd
         self.steps += 1
+        if self.__dict__.get("pending"):
+            op = self.pending.pop(0)
+            if "%s.%s" % (op[1], op[2]) in self.handles:
+                return op
         if self.kn.get("mode") == "sweep":
             return self._next_sweep_op()
         if self.kn.get("mode") == "deck":
